@@ -455,7 +455,9 @@ class World:
         while self.undo:
             inv = self.undo.pop()
             if inv is None:
-                continue
+                # an edit that cannot be undone (input removed): older inverse edits no longer refer to the same inputs
+                self.undo = []
+                return
             self.apply_edit(inv)
             self.edits += 1
             self.tr.fault("revert")
